@@ -357,3 +357,23 @@ Proof. reflexivity. Qed.
 
 Lemma pub_equals_refl p : ecdsa_pub_equals p p = true.
 Proof. unfold ecdsa_pub_equals. rewrite !Z.eqb_refl. reflexivity. Qed.
+
+(* ---------- the result does not depend on the fuel ---------- *)
+Lemma bls_loop_fuel_irrelevant f : forall f' secret info salt k k',
+  bls_loop f secret info salt = KOk k -> bls_loop f' secret info salt = KOk k' -> k = k'.
+Proof.
+  induction f as [|f IH]; intros f' secret info salt k k'; cbn [bls_loop]; [discriminate|].
+  destruct f' as [|f']; cbn [bls_loop]; [discriminate|].
+  destruct (hkdf secret salt info bls_okmLength) as [okm|]; [|discriminate].
+  destruct (mapToFr okm) as [[sk z]| | |]; try discriminate.
+  destruct z.
+  - apply IH.
+  - intros H1 H2. congruence.
+Qed.
+
+Lemma bls_keygen_fuel_irrelevant f f' ikm k k' :
+  bls_generatePrivateKey f ikm = KOk k -> bls_generatePrivateKey f' ikm = KOk k' -> k = k'.
+Proof.
+  unfold bls_generatePrivateKey. destruct (seed_len_bad _); [discriminate|].
+  apply bls_loop_fuel_irrelevant.
+Qed.
